@@ -32,6 +32,36 @@ long nondet_long(void); unsigned long nondet_ulong(void); Index nondet_Index(voi
 '''
 
 
+def free_function_names():
+    """Names of the namespace-scope functions defined in SimpleRandom.h."""
+    raw, st = X.load(H)
+    out, depth, i = [], 0, 0
+    for m in re.finditer(r"[{}]|(?:inline|static|constexpr)\s+(?:[\w:<>]+\s+)+?(\w+)\s*\(", st):
+        if m.group(0) == "{":
+            depth += 1
+        elif m.group(0) == "}":
+            depth -= 1
+        elif depth == 1 and m.group(1) not in out:
+            out.append(m.group(1))
+    return out
+
+
+def helper_functions(text, report, seen=None, level=0):
+    seen = seen if seen is not None else {"next_long_rand"}
+    out = []
+    if level > 3:
+        raise X.ExtractionBreak("helper functions of next_long_rand nest deeper than 3 levels")
+    for nm in free_function_names():
+        if nm in seen or not re.search(r"(?<![\w.>:])%s\s*\(" % re.escape(nm), text):
+            continue
+        seen.add(nm)
+        f = X.locate(H, nm)
+        t, R = cgen.emit(f, nm, static=True)
+        report.setdefault("helper functions", {})[nm] = R.fired
+        out = helper_functions(t, report, seen, level + 1) + out + [t]
+    return out
+
+
 def extracted(report):
     """C text of every function of SimpleRandom.h, nothing dropped."""
     parts = []
@@ -40,7 +70,9 @@ def extracted(report):
                      contract="__CPROVER_requires(1 <= seed && seed <= MMAX - 1) "
                               "__CPROVER_ensures(1 <= __CPROVER_return_value && __CPROVER_return_value <= MMAX - 1) "
                               "__CPROVER_assigns()")
-    parts.append(t); report["next_long_rand"] = R.fired
+    # free helper functions of the header that next_long_rand calls (e.g. a factored-out reduction step) are extracted with it, nothing dropped
+    helpers = helper_functions(t, report)
+    parts.extend(helpers); parts.append(t); report["next_long_rand"] = R.fired
     f = X.locate(H, "run", cls="RandomScalar")
     t, R = cgen.emit(f, "RandomScalar_run", ret_c="Scalar")
     parts.append(t); report["RandomScalar::run"] = R.fired
@@ -102,8 +134,9 @@ def purity_scan(report):
     """Free-identifier / hidden-state scan of next_long_rand and RandomScalar::run on the real text:
     any `static`, `thread_local`, `extern`, global, clock or address use is reported as obligation text."""
     bad = []
-    for fn in (X.locate(H, "next_long_rand"), X.locate(H, "run", cls="RandomScalar"),
-               X.locate(H, "run", cls="RandomScalar", key="complex"), X.locate(H, "random", cls="SimpleRandom")):
+    helpers = [X.locate(H, nm) for nm in free_function_names() if nm != "next_long_rand"]
+    for fn in [X.locate(H, "next_long_rand"), X.locate(H, "run", cls="RandomScalar"),
+               X.locate(H, "run", cls="RandomScalar", key="complex"), X.locate(H, "random", cls="SimpleRandom")] + helpers:
         body = fn.body
         for kw in ("static", "thread_local", "extern", "time", "clock", "rand", "srand", "getpid", "this", "&seed",
                    "std::random_device", "chrono", "reinterpret_cast", "uintptr_t"):
@@ -383,7 +416,8 @@ def build(tier):
     groups.append(z3lemma.StaticGroup("purity.scan", ok=not bad, detail="; ".join(bad) or
                                       "no static/thread_local/global/clock/address use in next_long_rand, RandomScalar::run, SimpleRandom::random; no namespace-scope variable in SimpleRandom.h",
                                       obligation="hidden-state scan of the real text (supporting static fact; purity itself is the CBMC obligation `purity`)"))
-    okx = native_crosscheck(parts[0], tier, report)
+    k_next = [i for i, p_ in enumerate(parts) if re.search(r"\blong next_long_rand\(", p_)][0]
+    okx = native_crosscheck("\n".join(parts[:k_next + 1]), tier, report)      # helper functions precede next_long_rand
     groups.append(z3lemma.StaticGroup("extractor.crosscheck", ok=okx, detail=report["extractor_crosscheck"],
                                       obligation="extractor validation: emitted C == real C++ next_long_rand natively", undecided_on_fail=True))
     meta = {
